@@ -120,7 +120,23 @@ struct ProtoIntPayVal
 	}
 };
 
+struct ProtoStrValInt
+{
+	typedef void Sig(std::string, int);
+	static const char * name() { return "void(std::string,int) by value"; }
+	template <typename L> static void invoke(const L & l, uint32_t a, Frame & f, int * runOut) {
+		std::string s = "v" + num(a % 89) + std::string(20 + a % 30, 'y'); // long enough to live on the heap: a move empties it
+		int v = (int)(a % 1000);
+		f.expect.push(fpOf(s)); f.expect.push(v);
+		(void)runOut;
+		if(a & 0x20000) l(s, v); else l(std::string(s), int(v));
+	}
+};
+
 // ------------------------------------------------------------------ policies
+// a canContinueInvoking policy that takes the (by-value, movable) arguments BY VALUE and always continues: the arguments must be
+// handed to it as lvalues after EVERY callback, every later callback still needs them
+struct PolCanContinueByValue { static bool canContinueInvoking(std::string s, int) { return s.size() < 100000; } typedef eventpp::SingleThreading Threading; };
 struct PolSingle { typedef eventpp::SingleThreading Threading; };
 struct PolSpin { typedef eventpp::GeneralThreading<eventpp::SpinLock> Threading; };
 struct PolCustomCb { typedef TCallback Callback; typedef eventpp::SingleThreading Threading; };
@@ -867,12 +883,13 @@ typedef EDCfg<PolUserMap, true> Cfg6;
 typedef EDCfg<PolSingleOrdered, false> Cfg7;
 struct PolSpinED { typedef eventpp::GeneralThreading<eventpp::SpinLock> Threading; };
 typedef EDCfg<PolSpinED, false> Cfg8;
-enum { NCFG = 9 };
+typedef CLCfg<ProtoStrValInt, PolCanContinueByValue, false> Cfg9;
+enum { NCFG = 10 };
 
 // C20: the SAME generated program under every member of a family that differs only in policies (threading, callback
 // storage); the observable trace (operations, results, calls with arguments) must be identical
 #ifndef VF_CFG_MASK
-#define VF_CFG_MASK 0x2ff
+#define VF_CFG_MASK 0x6ff
 #endif
 #if (VF_CFG_MASK >> 8) & 1
 struct PolCustomCbSpin { typedef TCallback Callback; typedef eventpp::GeneralThreading<eventpp::SpinLock> Threading; };
@@ -913,6 +930,7 @@ static void runCase(uint64_t caseNo, Rng & rng)
 	switch(cfg) {
 	VF_CFG(0) VF_CFG(1) VF_CFG(2) VF_CFG(3) VF_CFG(4) VF_CFG(5) VF_CFG(6) VF_CFG(7)
 	case 8: if((VF_CFG_MASK >> 9) & 1) { runCfgIf<((VF_CFG_MASK >> 9) & 1) != 0, Cfg8>(mode, rng, caseNo, 8); } else { skipCase(); } break; // bit 8 is the C20 family
+	case 9: if((VF_CFG_MASK >> 10) & 1) { runCfgIf<((VF_CFG_MASK >> 10) & 1) != 0, Cfg9>(mode, rng, caseNo, 9); } else { skipCase(); } break;
 	default: skipCase(); break;
 	}
 }
